@@ -56,7 +56,11 @@ Fresh == [stage |-> "idle", inc |-> 0, lastSeq |-> 0,
           rdE |-> 0, rdC |-> 0, rdSnap |-> FALSE, snapSaved |-> FALSE, cycLast |-> 0,
           applied |-> 0, snapIdx |-> 0, savedHi |-> 0, handed |-> FALSE, firstAdv |-> TRUE,
           proposed |-> {}, pend |-> {}, appliedIds |-> {}, replied |-> {},
-          started |-> {}, installed |-> {}, maxDone |-> 0, justSnap |-> FALSE]
+          started |-> {}, installed |-> {}, maxDone |-> 0, justSnap |-> FALSE,
+          \* hard state: rdT / rdV = term and vote carried by the Ready in progress (0 = this Ready has no hard state);
+          \* actT / actV = the last term and vote whose Ready got as far as `send` with messages - what the node ACTED upon
+          \* (a vote it granted, a term it campaigned in). Kept across incarnations: a restarted node must recover at least that.
+          rdT |-> 0, rdV |-> 0, actT |-> 0, actV |-> 0]
 
 Init == l = 1 /\ s = Fresh /\ skip = FALSE
 
@@ -65,7 +69,7 @@ Max(a, b) == IF a >= b THEN a ELSE b
 \* start of a new incarnation: everything volatile is forgotten; snapshots taken so far stay on disk
 Reborn(t) == [t EXCEPT !.stage = "idle", !.inc = t.inc + 1, !.rdE = 0, !.rdC = 0, !.rdSnap = FALSE, !.snapSaved = FALSE, !.cycLast = 0,
                        !.applied = 0, !.snapIdx = 0, !.handed = FALSE, !.firstAdv = TRUE,
-                       !.proposed = {}, !.pend = {}, !.appliedIds = {}, !.replied = {}, !.justSnap = FALSE]
+                       !.proposed = {}, !.pend = {}, !.appliedIds = {}, !.replied = {}, !.justSnap = FALSE, !.rdT = 0, !.rdV = 0]
 
 \* result of one event on state t: [ok, why, t]
 Bad(t, why) == [ok |-> FALSE, why |-> why, t |-> t]
@@ -77,7 +81,13 @@ StepEv(t0, e) ==
   IF e.seq # 1 /\ e.seq # t0.lastSeq + 1 THEN Bad(t, "seq: event numbers of one incarnation are not contiguous (an event is missing)")
   ELSE IF e.ev = "ready" THEN
        IF t.stage # "idle" THEN Bad(t, "order: ready while the previous cycle has not reached advance")
-       ELSE Good([t EXCEPT !.stage = "ready", !.rdE = e.a, !.rdC = e.b, !.rdSnap = e.f, !.snapSaved = FALSE, !.cycLast = 0])
+       ELSE Good([t EXCEPT !.stage = "ready", !.rdE = e.a, !.rdC = e.b, !.rdSnap = e.f, !.snapSaved = FALSE, !.cycLast = 0, !.rdT = e.c, !.rdV = e.d])
+  ELSE IF e.ev = "recovered" THEN
+       \* replayWAL: the hard state read back from the WAL. Term and vote are synced before the messages of their Ready leave
+       \* (raft.MustSync), so a restart never finds less than what the node acted upon
+       IF e.c < t.actT THEN Bad(t, "recovered: the persisted term is behind a term the node had acted upon (sent messages in) before it went down")
+       ELSE IF e.c = t.actT /\ t.actV # 0 /\ e.d # t.actV THEN Bad(t, "recovered: the persisted vote differs from the vote the node had sent in that term before it went down")
+       ELSE Good(t)
   ELSE IF e.ev = "savesnap" THEN
        \* the snapshot of a Ready (file + WAL record) is made durable BEFORE the hard state and entries of that Ready
        \* (raft.go: "must save the snapshot file and WAL snapshot entry before saving any other entries or hardstate");
@@ -96,7 +106,9 @@ StepEv(t0, e) ==
        ELSE Good([t EXCEPT !.stage = "append"])
   ELSE IF e.ev = "send" THEN
        IF t.stage # "append" THEN Bad(t, "order: send before walsave/append (messages leave before the WAL write)")
-       ELSE Good([t EXCEPT !.stage = "send", !.handed = @ \/ t.rdC > 0])
+       ELSE Good([t EXCEPT !.stage = "send", !.handed = @ \/ t.rdC > 0,
+                           !.actT = IF e.a > 0 /\ t.rdT # 0 THEN t.rdT ELSE @,
+                           !.actV = IF e.a > 0 /\ t.rdT # 0 THEN t.rdV ELSE @])
   ELSE IF e.ev = "publish" THEN
        IF t.stage # "send" THEN Bad(t, "order: publish before walsave/append/send (entries handed to the state machine before the WAL write)")
        ELSE IF e.a < t.applied THEN Bad(t, "fields: appliedIndex decreased")
